@@ -70,6 +70,9 @@ class Sim:
         self.sched = sched
         self.policy = sched.get('policy', 'random')
         self.params = dict(sched.get('params') or {})
+        # 'rel': a thread may also be pre-empted right after it released a lock
+        # (e.g. between the last queue operation of a worker and its exit)
+        self.release_yield = bool(sched.get('rel'))
         self.rng = random.Random(sched.get('seed', 0))
         ch = sched.get('choices')
         # sparse replay list: {decision index: index into runnable}
@@ -516,6 +519,10 @@ class SimLock:
         if not self._locked:
             raise RuntimeError('release unlocked lock')
         self._locked = False
+        sim = SIM
+        if sim is not None and sim.release_yield and not sim.aborting and \
+                sim.by_ident.get(_real_get_ident()) is not None:
+            sim.yield_point('rel')
 
     def __exit__(self, *a):
         self.release()
